@@ -71,4 +71,23 @@ CONFIG = {
         "assumptions": ["hex encoding of keys is injective (Go maps keyed by hex strings behave as maps keyed by the byte strings)"],
         "contradicts": "PatVerif.Props.C09 (refines, outcome_spec, functional, repeat_accepted, unbound_accepted, unknown_refused, reject_preserves)",
     },
+    "C05": {
+        "rule": "Batches over {type 1, type 2} × {known key, unknown key id, malformed blinded element} (no issuer of that type arises from the "
+                "configuration) — every composition up to length 3 (quick, sampled above length 1) / 4 (thorough, length 4 sampled), plus random batches of 4..9 "
+                "requests incl. duplicates — against 9 issuer configurations: both types, one type only, two keys per type, reversed order, "
+                "always-failing issuers ahead of good ones, colliding (type, last key-id byte) pairs, and the empty configuration. The request "
+                "crosses the wire (Marshal → Unmarshal) before EvaluateBatch; the oracle column is each matching issuer's own Evaluate called directly.",
+        "level_text": "EvaluateBatch is modelled as `map` of a per-request slot function followed by the response-list encoder; that the client's "
+                      "decoder returns exactly one entry per request in order (decode_batch), that an entry is present iff a configured issuer of "
+                      "that type and truncated key id evaluates successfully (present_iff), that an entry depends on its own request only (isolation) "
+                      "and that with distinct (type, key-id byte) pairs the slot holds that issuer's response (evalOne_distinct) are Lean theorems for "
+                      "all configurations and batches. Tied to the Go code by executing both on the same batches (bytes compared) and by direct "
+                      "oracles: entry count/order, presence vs direct evaluation, finalization of present entries under their own request state.",
+        "level_note": "Trusted: Lean kernel, standard axioms, harness. The per-type issuers' Evaluate is an oracle parameter (CfgSized: a successful "
+                      "evaluation returns 145 resp. 256 bytes — validated on every run); token validity of a finalized entry is C01/C02's subject "
+                      "and is checked here on the implementation only (`finalizes` is not a theorem of this file).",
+        "trusted_base": COMMON_TB + ["per-type Evaluate as oracle (CfgSized hypothesis)"],
+        "assumptions": ["CfgSized", "batch responses shorter than 2^62 bytes"],
+        "contradicts": "PatVerif.Props.C05 (decode_batch, present_iff, isolation, evalOne_distinct)",
+    },
 }
